@@ -247,7 +247,10 @@ def chk_transform(inp):
     else:
         if not valid:
             return []
-        R = T[:3, :3] / s
+        if inp.get("bad_json_scale") is not None:
+            # a JSON transform whose scale is zero or negative describes no Sim(3) matrix (singular / reflection)
+            T = B.rand_se3(rng, "uniform")
+        R = T[:3, :3] / (s if inp.get("bad_json_scale") is None else 1.0)
         # quaternion of R by the standard trace method (independent of evo)
         w = math.sqrt(max(0.0, 1 + R[0, 0] + R[1, 1] + R[2, 2])) / 2
         if w < 1e-3:
@@ -256,6 +259,9 @@ def chk_transform(inp):
         data = dict(x=T[0, 3], y=T[1, 3], z=T[2, 3], **q)
         if s != 1.0 or inp["seed"] % 2:
             data["scale"] = s
+        if inp.get("bad_json_scale") is not None:
+            data["scale"] = inp["bad_json_scale"]
+            valid = False
         if inp.get("drop_key"):
             del data[["x", "qw", "qz"][inp["seed"] % 3]]
             valid = False
@@ -298,6 +304,9 @@ def _cases(tier, seed):
         k = kinds[it % 6]
         yield ("transform", {"seed": int(rng.integers(0, 10**9)), "kind": k, "fmt": ["npy", "txt", "json"][(it // 6) % 3],
                              "scale": float(rng.choice([0.5, 2.0, 10.0])) if k == "sim3" else 1.0, "drop_key": it % 11 == 0})
+    for it in range(9 * K):
+        yield ("transform", {"seed": int(rng.integers(0, 10**9)), "kind": "se3", "fmt": "json", "scale": 1.0,
+                             "bad_json_scale": [-2.0, -1.0, 0.0][it % 3]})
 
 
 def bounded(tier, seed):
